@@ -3456,6 +3456,32 @@ class OpAlignPartitions(MaybeAlignPartitions):
     def _meta(self):
         return getattr(self.frame._meta, self.op)(self.other._meta)
 
+    def _simplify_up(self, parent, dependents):
+        if isinstance(parent, Projection):
+            # Both operands contribute columns to the result, the projection
+            # has to be applied to each of them
+            if (
+                self.frame.ndim != 2
+                or not isinstance(self.other, Expr)
+                or self.other.ndim != 2
+            ):
+                return
+            columns = determine_column_projection(self, parent, dependents)
+            columns = _convert_to_list(columns)
+            frame_columns = [col for col in self.frame.columns if col in columns]
+            other_columns = [col for col in self.other.columns if col in columns]
+            if (
+                frame_columns == self.frame.columns
+                and other_columns == self.other.columns
+            ):
+                return
+            result = type(self)(
+                self.frame[frame_columns],
+                self.other[other_columns],
+                *self.operands[2:],
+            )
+            return type(parent)(result, *parent.operands[1:])
+
     def _lower(self):
         # This can be expensive when something that has expensive division
         # calculation is in the Expression
